@@ -2,7 +2,7 @@
    list, prod, sumbool, sumor -> the OCaml types); numbers stay the extracted inductives.
    No Extract Constant / Extract Inductive of our own. *)
 From Coq Require Import Extraction ExtrOcamlBasic.
-From KP Require Import Bytes Utf8 Nav Tree History Merge Version ReadScript WriteScript Base32 Otp OtpInst.
+From KP Require Import Bytes Utf8 Nav Tree History Merge Version ReadScript WriteScript Base32 Otp OtpInst Kdbx4.
 Extraction Language OCaml.
 Set Extraction KeepSingleton.
 Separate Extraction
@@ -12,4 +12,5 @@ Separate Extraction
   Merge.merge
   ReadScript.read_to_end ReadScript.rte_fuel ReadScript.get_version_model Version.version_parse
   Base32.b32_decode Base32.b32_encode Otp.otp_parse Otp.value_at OtpInst.hmac_alg BinNat.N.mul BinNat.N.div BinNat.N.modulo
+  Kdbx4.decrypt4 Kdbx4.dump4 Kdbx4.draw_sizes Kdbx4.vd_of_kdf Kdbx4.draws_ok
   WriteScript.save_to_sink WriteScript.fresh_sink WriteScript.save_raw.
